@@ -1641,31 +1641,17 @@ mutant("c03-called-set-before-decode", "C03", "C03-D1", "server_socket.go",
 	inputArgs := ack.inputArgs
 	if ack.hasError {""")
 mutant("c03-retry-callback-on-every-failure", "C03", "C03-D5", "client_packet_queue.go",
-       """				pq.mu.Unlock()
-				if haveAck {
-					rv.Call(args)
-				}
-			}
-		} else {""",
-       """				pq.mu.Unlock()
-			}
-			if haveAck {
-				rv.Call(args)
-			}
-		} else {""")
+       """		if remove && haveAck {
+			rv.Call(args)
+		}""",
+       """		if haveAck {
+			rv.Call(args)
+		}""")
 mutant("c03-retry-dequeue-on-every-failure", "C03", "C03-D5", "client_packet_queue.go",
-       """			if tryCount > pq.socket.config.Retries {
-				pq.debug.Log("Packet with ID", packet.id, "discarded after", tryCount)
-				pq.mu.Lock()
-				pq.queuedPackets = pq.queuedPackets[1:]
-				pq.mu.Unlock()""",
-       """			pq.mu.Lock()
+       """		if remove {
 			pq.queuedPackets = pq.queuedPackets[1:]
-			pq.mu.Unlock()
-			if tryCount > pq.socket.config.Retries {
-				pq.debug.Log("Packet with ID", packet.id, "discarded after", tryCount)""")
-
-# ---------------------------------------------------------------- C05 (round 2)
+		}""",
+       """		pq.queuedPackets = pq.queuedPackets[1:]""")
 mutant("c05-conn-remove-skipped-for-one-reason", "C05", "C05-D8", "server_socket.go",
        "		s.nsp.remove(s)\n		s.conn.remove(s)\n", "		s.nsp.remove(s)\n		if reason != ReasonServerNamespaceDisconnect {\n			s.conn.remove(s)\n		}\n")
 mutant("c05-recovery-log-drops-namespace", "C05", "C05-D8", "adapter/adapter_session_aware.go",
@@ -2173,3 +2159,69 @@ mutant("c01-parser-reset-while-connected", "C01", "C01-D11", "client_manager_con
        """	m.resetParser()
 	m.stateMu.Lock()
 	if m.state == clientConnStateConnected {""")
+
+# round 4 batch 2
+mutant("c09-event-name-fast-path-go-quoting", "C09", "C09-D13", "parser/json/encode.go",
+       """	switch v.(type) {
+	case _empty, *_empty:
+		// Omit JSON.""",
+       """	if s, ok := v.(string); ok {
+		buf.WriteString(strconv.Quote(s))
+		return buf.Bytes(), nil
+	}
+
+	switch v.(type) {
+	case _empty, *_empty:
+		// Omit JSON.""")
+mutant("c09-frame-list-reused-across-packets", "C09", "C09-D14", "parser/json/decode.go",
+       "			buffers:   [][]byte{buf},",
+       "			buffers:   append(p.scratch[:0], buf),")
+MUTANTS[-1]["then"] = ("parser/json/parser.go", "	r              *reconstructor\n", "	r              *reconstructor\n	scratch        [][]byte\n")
+mutant("c12-use-skips-duplicates-by-code-pointer", "C12", "C12-D6", "middleware.go",
+       """	n.middlewareFuncs = append(n.middlewareFuncs, f)
+}""",
+       """	for i := range n.middlewareFuncs {
+		if sameHandler(&n.middlewareFuncs[i], &f) {
+			return
+		}
+	}
+	n.middlewareFuncs = append(n.middlewareFuncs, f)
+}""")
+mutant("c13-truncated-body-decoded", "C13", "C13-D4", "engine.io/parser/payload.go",
+       """	buf, err := io.ReadAll(r)
+	if err != nil {
+		return nil, err
+	}""",
+       """	buf, err := io.ReadAll(r)
+	if err != nil && len(buf) == 0 {
+		return nil, err
+	}""")
+mutant("c13-batch-fast-path-on-raw-lengths", "C13", "C13-D3", "engine.io/client_socket.go",
+       "	if shouldCheckPayloadSize {\n",
+       "	if shouldCheckPayloadSize && int64(len(packets[0].Data)+len(packets[len(packets)-1].Data)) > s.maxPayload {\n")
+
+# F37 / F38 / F39 (reverting the repairs)
+mutant("c01-f37-buffer-decision-outside-the-mutex", "C01", "C01-D12", "client_socket.go",
+       """		s.stateMu.RLock()
+		connected = s.state == clientSocketConnStateConnected
+		s.stateMu.RUnlock()
+		if connected {
+			s.receiveBufferMu.Unlock()
+			return s.callEvent(handler, header, values, sendAck)
+		}
+""", "")
+mutant("c15-f37-buffer-decision-outside-the-mutex", "C15", "C15-D6", "client_socket.go",
+       """		s.stateMu.RLock()
+		connected = s.state == clientSocketConnStateConnected
+		s.stateMu.RUnlock()
+		if connected {
+			s.receiveBufferMu.Unlock()
+			return s.callEvent(handler, header, values, sendAck)
+		}
+""", "")
+mutant("c03-f38-deferred-ack-marked-sent", "C03", "C03-D9", "client_socket.go",
+       "		if event.header.ID != nil && !hasAckFunc {",
+       "		if _ = hasAckFunc; event.header.ID != nil {")
+mutant("c03-f39-no-head-guard", "C03", "C03-D10", "client_packet_queue.go",
+       """		if len(pq.queuedPackets) == 0 || pq.queuedPackets[0] != packet {""",
+       """		if len(pq.queuedPackets) == 0 {""")
